@@ -25,6 +25,12 @@ ANSI_ESCAPE_PATTERN = re.compile(
     flags=re.VERBOSE,
 )
 
+# the start of an escape sequence that `ANSI_ESCAPE_PATTERN` would strip, of which the end has not
+# been read yet; only looked for at the very end of what was read, see `_hold_back_partial_ansi`
+ANSI_ESCAPE_PARTIAL_PATTERN = re.compile(
+    rb"\x1B\s?((\](\d[^\x07\n]{0,64})?)|(\[[^@-~\n]{0,64}))?\Z"
+)
+
 
 @dataclass()
 class BaseChannelArgs:
@@ -147,6 +153,9 @@ class BaseChannel:
         )
 
         self.channel_log: Optional[BinaryIO] = None
+
+        # trailing, not yet complete escape sequence of the previous read
+        self._ansi_partial = b""
 
     @property
     def auth_telnet_login_pattern(self) -> Pattern[bytes]:
@@ -286,6 +295,8 @@ class BaseChannel:
             N/A
 
         """
+        self._ansi_partial = b""
+
         if self._base_channel_args.channel_log:
             if isinstance(self._base_channel_args.channel_log, BytesIO):
                 self.channel_log = self._base_channel_args.channel_log
@@ -641,6 +652,37 @@ class BaseChannel:
             buf = re.sub(pattern=prompt_pattern, repl=b"", string=buf)
 
         buf = buf.lstrip(self._base_channel_args.comms_return_char.encode()).rstrip()
+        return buf
+
+    def _hold_back_partial_ansi(self, buf: bytes) -> bytes:
+        """
+        Hold back an escape sequence that is split across two reads
+
+        Puts what the previous read held back in front of `buf`, then holds back a trailing, not yet
+        complete escape sequence (if any) until the next read -- that way `_strip_ansi` gets to see
+        (and strip) the whole sequence no matter how the transport chunked it.
+
+        Args:
+            buf: bytes just read from the transport
+
+        Returns:
+            bytes: bytes read so far, up to a possible partial escape sequence at the very end
+
+        Raises:
+            N/A
+
+        """
+        buf = self._ansi_partial + buf
+        self._ansi_partial = b""
+
+        if b"\x1b" not in buf:
+            return buf
+
+        partial = re.search(pattern=ANSI_ESCAPE_PARTIAL_PATTERN, string=buf)
+        if partial:
+            self._ansi_partial = partial.group(0)
+            buf = buf[: partial.start()]
+
         return buf
 
     @staticmethod
